@@ -12,8 +12,8 @@ What is mirrored (quirks included):
                                (position 2·voter + phase); the prevote GHOST is recomputed only when the
                                prevote weight reached the threshold and *starting from the memoised ghost*.
 * `Round.update`              – the early returns, `finalized` only recomputed once precommit weight reached
-                               the threshold, the "possible to precommit" closure (Go `uint64` arithmetic; the
-                               further-equivocation budget saturates at 0 since the fix of this property), the `estimate = prevoteGhost; return` shortcut below the threshold
+                               the threshold, the "possible to precommit" closure with Go's wrapping `uint64`
+                               subtraction, the `estimate = prevoteGhost; return` shortcut below the threshold
                                (which leaves `completable` untouched).
 * `Round.PrecommitGHOST`      – memoised like the prevote ghost.
 * `context.Weight`            – weight of (node bits ∪ equivocation bits) of one phase.
@@ -172,7 +172,7 @@ def possibleToPrecommit (ws : List Nat) (curPc : Nat) (eqv : Mask) (node : Mask)
   let thr := threshold tot
   let tolerated := sub64 tot thr
   let currentEquiv := maskWeight ws eqv 1
-  let additionalEquiv := if tolerated > currentEquiv then sub64 tolerated currentEquiv else 0
+  let additionalEquiv := sub64 tolerated currentEquiv
   let remaining := sub64 tot curPc
   let precommittedFor := nodeWeight ws eqv node true
   let d := sub64 curPc precommittedFor
